@@ -140,7 +140,7 @@ CLAIMED = {
         "exactly once unless kept. Correspondence: the time-ordered log of the fake engine processes under the real binary with -j 1..8 (2..10 files, named connections, `$__DATABASE__` in every statement, failing/dying engines, "
         "latency patterns forcing many interleavings, --keep-db-on-failure, long common path prefixes) must be accepted by the extracted automaton and satisfy the clauses evaluated directly; the library's run_parallel is observed too (known finding D10). "
         "C17_driver_refines_observer: every trace the driver model Driver.v emits - under every list of scheduler choices, any arrival of Ctrl-C, any order of closes - is accepted by the observer automaton, so all of the above holds of every run of "
-        "the model of the code, not only of accepted traces; C17_driver_end_closed. Every -j run of the real binary (incl. engines that wind down slowly and sessions whose ends depend on each other) is replayed by the extracted driver model.",
+        "the model of the code, not only of accepted traces; C17_driver_end_closed, C17_driver_finished_run_cleans_up, C17_driver_holds_at_most_jobs, C17_driver_files_in_flight_bounded. Every -j run of the real binary (incl. engines that wind down slowly and sessions whose ends depend on each other) is replayed by the extracted driver model.",
    ref="4/C17", technique="Coq proof (forward simulation: small-step model of run_parallel under every schedule refines an observer automaton whose invariants give the clauses) + trace-acceptance and model-replay correspondence with the real binary",
    note="Trusted: Coq kernel; partial: that tokio's scheduler realises only schedules of the model is sampled (each observed run is replayed by the model), not proved; ordering by CLOCK_MONOTONIC timestamps of the engine processes; a DROP answered with 'Connection refused' (loop break) is not modelled."),
  "C19": dict(
